@@ -173,7 +173,6 @@ ISHandle(s, m, mono, trailing) ==
   ELSE
   LET bump == m.term > s.term
       s1   == IF bump THEN [s EXCEPT !.role = "F", !.term = m.term, !.ct = m.term] ELSE s
-      s1l  == [s1 EXCEPT !.leader = m.leader]
       s2   == [s1 EXCEPT !.leader = m.leader, !.applied = m.idx, !.lsnap = <<m.idx, m.sterm>>,
                           !.cl = m.cfg, !.cli = m.cfgidx, !.cc = m.cfg, !.cci = m.cfgidx]
       first == LogFirst(s2.log)
@@ -186,10 +185,6 @@ ISHandle(s, m, mono, trailing) ==
               ELSE CompactRange(first, m.idx, s2.llog[1], trailing)
       lg   == IF rng = <<0, 0>> THEN s2.log ELSE DelRange(s2.log, rng[1], rng[2])
       s3   == IF wipe THEN [s2 EXCEPT !.llog = <<m.idx, m.sterm>>] ELSE s2
-  IN \* a snapshot that does not reach beyond the applied index (late / duplicated request) is acknowledged and ignored
-     \* (unless a monotonic store is stuck ending below the snapshot: only the installation resets it)
-     IF m.idx <= s.applied /\ ~(mono /\ s.llog[1] > 0 /\ s.llog[1] < s.lsnap[1])
-     THEN [st |-> s1l, resp |-> [term |-> s1.term, ok |-> TRUE]]
-     ELSE [st |-> [s3 EXCEPT !.log = lg], resp |-> [term |-> s1.term, ok |-> TRUE]]
+  IN [st |-> [s3 EXCEPT !.log = lg], resp |-> [term |-> s1.term, ok |-> TRUE]]
 
 =============================================================================
